@@ -58,8 +58,7 @@ def extra(binary, build, tier, rng):
     scalars = [0, 1, 0x41, 0xD7FF, 0xE000, 0xE001, 0xFFFF, 0x10000, 0x10FFFE, 0x10FFFF]
     msg, info = count_values(p, r, 64, [idx(c) for c in scalars], rng, "StandardUniform<char>")
     if msg == "inconclusive":
-        yield {"kind": "oracle", "build": build, "request": mk(((2 * (r - 1) + 1) << 64) // (2 * r)), "impl": str(info)[:300], "model": "",
-               "oracle": "a Unicode scalar value is not reachable where an unbiased sampler over all %d scalar values must produce it: %s" % (r, info)}
+        yield {"kind": "note", "text": "StandardUniform<char>: preimage counting inconclusive for this implementation (%s)" % (info,)}
     elif msg:
         yield {"kind": "oracle", "build": build, "request": mk(info[min(info)][0]), "impl": str(info)[:600], "model": "", "oracle": msg}
     yield {"kind": "count", "what": "char-preimage-probes", "n": p.calls}
@@ -110,8 +109,8 @@ def alnum_exact(binary, build):
             want = ord(fa[0])
             odd = [(k, n) for k, n in undecided.items() if k != (want, 2)]
             if odd:
-                yield {"kind": "oracle", "build": build, "request": req0, "impl": str(sorted(undecided.items()))[:300], "model": "",
-                       "oracle": "Alnum: a first word that does not decide alone must leave the decision to the next word (%r, 2 words); found (character, words used) = %s" % (chr(want), odd[:3])}
+                # equal counts of the decided words only imply equal weights if an undecided first word restarts the draw; otherwise not judged
+                yield {"kind": "note", "text": "Alnum: undecided first words do not simply leave the decision to the next word (%s): the equal-weight argument does not apply - not judged" % (odd[:3],)}
     yield {"kind": "count", "what": "alnum-first-words-enumerated", "n": total}
 
 
